@@ -129,7 +129,12 @@ def random_spec(rng, depth=0, allow_complex=False, positive=False):
         return ('C', random_spec(rng, depth + 1), ('F', 0.01) if rng.random() < 0.5 else ('P', rng.randrange(4)))
     op = rng.choice(['add', 'mul', 'div', 'sqrt'] + ([] if positive else ['neg']))
     if op in ('sqrt', 'neg'):
-        return ('T', op, [random_spec(rng, depth + 1, positive=positive)])
+        # the operand of a square root must be positive
+        arg = random_spec(rng, depth + 1, positive=(positive or op == 'sqrt'))
+        if op == 'sqrt' and arg[0] == 'F':
+            # the square root of a plain number is a plain (rounded) float, not a transformed prior
+            arg = ('P', int(round(arg[1] * 100)) % 4)
+        return ('T', op, [arg])
     a = random_spec(rng, depth + 1, positive=positive)
     b = random_spec(rng, depth + 1, positive=positive)
     if a[0] == 'F' and b[0] == 'F':
@@ -543,3 +548,53 @@ def names_tied_pairs(S):
                 if by_name is not None:
                     S.claim_eq(f'{tag}.site{gi}.by_name', g(by_name), vals[idx])
     S.observe('v', S.real('four_v0', lo=0.2, hi=3.0))
+
+
+@obligation('C11.values.unrestricted', functions=FUNCS + ['holopy.scattering.theory.scatteringtheory.ScatteringTheory.from_parameters',
+                                                          'holopy.core.prior.Prior.__rsub__', 'holopy.core.prior.Prior.__sub__',
+                                                          'holopy.core.prior.Prior.__rtruediv__'],
+            timeout_s=120, nvalid=2, stubs=['theory := pure-Python stub with a fittable lens_angle'],
+            bounds='one sphere whose centre uses p, 2-p, q-2 (subtraction in both operand orders), index 3/q-free '
+                   'forms, theory / alpha / noise priors; the value vector is unrestricted (zero and negative values '
+                   'included): every place receives the operation applied to the value of its prior')
+def values_unrestricted(S):
+    _setup(S)
+    p = Uniform(-5.0, 5.0, guess=0.5)
+    q = Uniform(-5.0, 5.0, guess=1.5)
+    w = Uniform(0.5, 5.0, guess=2.5)
+    lens = Uniform(-1.0, 1.0, guess=0.25)
+    alpha = Uniform(-1.0, 1.0, guess=0.75)
+    noise = Uniform(-1.0, 1.0, guess=0.125)
+    sph = Sphere(n=3 / w, r=0.5, center=(p, 2 - p, q - 2))
+    model = AlphaModel(sph, alpha=alpha, noise_sd=noise, theory=StubLens(lens), medium_index=1.33,
+                       illum_wavelen=0.66, illum_polarization=(1, 0))
+    pars = model._parameters
+    S.claim('count', len(pars) == 6)
+    order = {}
+    for name, pr in (('p', p), ('q', q), ('w', w), ('lens', lens), ('alpha', alpha), ('noise', noise)):
+        hits = [i for i, x in enumerate(pars) if x.guess == pr.guess]
+        S.claim(f'{name}.mapped_once', len(hits) == 1)
+        if len(hits) != 1:
+            return
+        order[name] = hits[0]
+    vals = [S.real(f'v{i}') for i in range(6)]
+    v = {k: vals[i] for k, i in order.items()}
+    S.assume(v['w'] > 0)
+    S.observe('v_lens', v['lens'])
+    for tag, given in (('list', vals), ('by_name', {n: x for n, x in zip(model._parameter_names, vals)})):
+        sc = model.scatterer_from_parameters(given)
+        S.claim_eq(f'{tag}.center_x', sc.center[0], v['p'])
+        S.claim_eq(f'{tag}.center_y', sc.center[1], 2 - v['p'])
+        S.claim_eq(f'{tag}.center_z', sc.center[2], v['q'] - 2)
+        S.claim_eq(f'{tag}.index', sc.n, 3 / v['w'])
+        th = model.theory_from_parameters(given)
+        S.claim(f'{tag}.theory_type', type(th) is StubLens)
+        S.claim_eq(f'{tag}.theory', th.lens_angle, v['lens'])
+    S.claim_eq('alpha', read_map(model._maps['model'], vals)['alpha'], v['alpha'])
+    S.claim_eq('noise', model._find_noise(vals, None), v['noise'])
+    # the theory's own from_parameters: any value replaces the old one, the rest is kept
+    t0 = StubLens(0.7)
+    x = S.real('x')
+    S.claim_eq('theory_from_parameters.replaces', t0.from_parameters({'lens_angle': x}).lens_angle, x)
+    S.claim('theory_from_parameters.keeps', t0.from_parameters({}).lens_angle == 0.7)
+    S.claim('theory_from_parameters.original_untouched', t0.lens_angle == 0.7)
